@@ -507,7 +507,7 @@ def addLineText (x : PExt) (p : LP) : LP :=
   let k := p.containerKind
   let cont : Option LP :=
     if acceptsLines k then
-      if p.i < p.line.length && p.line.getD p.i 0 == TAB && p.tabRem > 0 && p.tabRem < tabStopSize then
+      if p.i < p.line.length && p.line.getD p.i 0 == TAB && p.tabRem > 0 && p.tabPartial then
         let p := p.appendInline (.node { isBlock := false, kind := IK.indent, start := p.lineStart + p.i, stop := p.lineStart + p.i + 1, indent := p.tabRem } [])
         some (p.consumeIndentN p.tabRem)
       else some p
